@@ -119,6 +119,26 @@ CLAIMED = {
              "Quot.sound.",
         technique="Lean 4 proofs (absorbing states, case analysis) + exhaustive fault enumeration correspondence",
         ref="DESIGN.md §5 C06"),
+    "C10": dict(
+        text="Lean 4 proofs on a model of the attribute access path (xcm.c typed/formatted getters, attr_tree_get_value/"
+             "set_value, attr_node_value_get) over the attribute table that the extractor REGENERATES from the preprocessed "
+             "sources on every run (one row per attr_tree_add_value_node site, getter classified by its bounded-copy idiom): "
+             "every row is safe (C10_table_safe, decided over the whole table), hence for every lookup outcome, value size and "
+             "capacity xcm_attr_get and all typed/formatted variants write at most `capacity` bytes and return exactly the "
+             "bytes written (C10_get_within_capacity, C10_rc_is_written, C10_typed_within_capacity), a value that does not fit "
+             "is EOVERFLOW / ENOENT through a typed getter (C10_overflow_reported), xcm_attr_set rejects unknown, read-only, "
+             "wrong-type and wrong-length requests before any setter runs (C10_set_rejects_without_effect), and no name string "
+             "can overrun the path parser (C10_names_total, from C19). Tie: sys_attr on live sockets of all seven transports "
+             "in five socket states: every attribute x every access function x capacities 0..size+2 into canary-framed "
+             "buffers (bytes written and bytes beyond capacity measured), every name x type x length for set with a state "
+             "snapshot before/after, malformed and over-long names; rc/errno/written compared with the model.",
+        note="Found and fixed here: F-10a (fixed-size getters ignored capacity), F-10c (out-of-bounds read of the caller's "
+             "buffer when a string getter returns 0 bytes). Attribute values are abstracted to their size. The getter "
+             "classification is a translator over preprocessed C (extract/ext_attrs.py) and is trusted together with the "
+             "harness; C-level memory safety is observed (canaries, ASan), not proved. Axioms: propext, Quot.sound.",
+        technique="Lean 4 proofs over a table regenerated from source (decide over the whole table + case analysis) + "
+                  "exhaustive capacity sweep correspondence on live sockets",
+        ref="DESIGN.md §5 C10"),
 }
 
 PENDING_REASON = "not yet built in this round: no check is claimed for it (the design in DESIGN.md §5 stands; " \
